@@ -200,7 +200,7 @@ def torchfn_cases(cname, layout, unsynth, embed=None):
                 c["embed"] = embed
                 c["stream"] = "outer"
             out.append(c)
-    for n in ("tree_map", "tree_flatten_unflatten", "tree_leaves"):
+    for n in ("tree_map", "tree_flatten_unflatten"):
         c = {"cls": cname, "layout": layout, "name": n, "mode": "pytree", "stream": "torchfn"}
         if embed:
             c["embed"] = embed
